@@ -128,12 +128,41 @@ def r16b(run, C):
                   necessity="a later registration with priority 0 is inserted at the front and stays ahead of an "
                             "earlier registration with a higher priority: the lower priority converter wins", node=f.node)
     elif ins:
-        # idiom B: insertion index computed from priorities
-        ok = all("priority" in names_in(c.args[0]) or any(
-            o.kind in ("iter", "iter-unpack", "call", "aug") for o in prov(fa).of_expr(n, c.args[0])) for n, c in ins)
-        run.check("R16b", f, "the insertion index is computed by comparing priorities", ok,
-                  construct="insertion index ignores priority", message="register() inserts at an index that does "
-                  "not depend on priorities", necessity="priority order is not maintained")
+        # idiom B: insertion index found by scanning: before the first entry whose priority is <= the new one,
+        # and *at the end* when there is none
+        for n, c in ins:
+            idx = c.args[0]
+            ok = False
+            why = "the insertion index is not a scan result"
+            if isinstance(idx, ast.Name):
+                defs = fa.rd.defs_of(n, idx.id)
+                has_end = any(d is not fa.cfg.entry and d.kind == "stmt" and isinstance(d.ast, ast.Assign)
+                              and "len(self._registry)" in unparse(d.ast.value) for d in defs)
+                loop_defs = [d for d in defs if d.kind == "branch" and d.is_for]
+                for_else = any(d.stmt.orelse for d in loop_defs)
+                cmp_ok = False
+                for d in loop_defs:
+                    for x in walk_shallow(d.stmt):
+                        if isinstance(x, ast.If) and any(isinstance(b, ast.Break) for b in x.body) \
+                                and isinstance(x.test, ast.Compare) and len(x.test.ops) == 1:
+                            l, op, r = unparse(x.test.left), x.test.ops[0], unparse(x.test.comparators[0])
+                            if r == "priority" and isinstance(op, ast.LtE):
+                                cmp_ok = True
+                            if l == "priority" and isinstance(op, ast.GtE):
+                                cmp_ok = True
+                if not loop_defs:
+                    why = "no scan loop defines the insertion index"
+                elif not cmp_ok:
+                    why = "the scan does not stop at the first entry with priority <= the new one"
+                elif not (has_end or for_else):
+                    why = ("when no existing entry has priority <= the new one the index is not len(registry): the new "
+                           "entry is inserted before the last one instead of appended")
+                else:
+                    ok = True
+            run.check("R16b", f, "scan-insert keeps priority order, newest first among equals, appending when lowest", ok,
+                      construct="scan-insert idiom incomplete", message=f"register(): {why}",
+                      necessity="a registration whose priority is below every existing one lands in front of a higher "
+                                "priority entry: the lower-priority converter wins", node=c)
     else:
         raise AnalysisError("R16b: TypeRegistry.register uses an insertion idiom the checker does not know")
 
@@ -256,8 +285,41 @@ def r16d(run, C):
                   message=f"{mod} no longer creates a TypeRegistry")
 
 
+def r16e(run):
+    """the converter that runs is the one the registry resolved"""
+    T = run.repo.cls("utype.utils.transform", "TypeTransformer")
+    f = T.methods["__call__"]
+    fa = analysis(f)
+    res = [(n, c) for n, c in fa.all_calls() if call_attr(c) in ("resolver_transformer", "resolve")]
+    run.check("R16e", f, "the dispatcher asks the registry for the converter", len(res) == 1,
+              construct="dispatcher resolution", message="TypeTransformer.__call__ does not resolve through the registry exactly once")
+    if len(res) != 1:
+        return
+    rn = res[0][0]
+    var = rn.ast.targets[0].id if isinstance(rn.ast, ast.Assign) and isinstance(rn.ast.targets[0], ast.Name) else None
+    disp = [(n, c) for n, c in fa.all_calls() if isinstance(c.func, ast.Name) and c.func.id == var]
+    ok = bool(var) and bool(disp) and all(set(fa.rd.defs_of(n, var)) == {rn} for n, c in disp)
+    run.check("R16e", f, "the function applied is exactly the resolution result", ok,
+              construct="dispatcher applies another function",
+              message=f"TypeTransformer.__call__: the callee `{var}` of the final dispatch has definitions other than "
+                      f"the registry's answer (it is re-bound between resolution and application)",
+              necessity="the converter used is no longer 'the matching registration with the highest priority': a user "
+                        "registration is silently replaced", node=disp[0][1] if disp else None)
+    g = T.methods["resolver_transformer"]
+    ok = any(isinstance(c, ast.Call) and call_attr(c) == "resolve" and "registry" in unparse(c.func)
+             for c in walk_shallow(g.node))
+    run.check("R16e", g, "resolver_transformer delegates to the registry", ok, construct="resolver_transformer",
+              message="TypeTransformer.resolver_transformer does not return registry.resolve(t)")
+    a = T.methods["apply"]
+    aa = analysis(a)
+    calls = [(n, c) for n, c in aa.all_calls() if isinstance(c.func, ast.Name) and c.func.id == "func"]
+    ok = bool(calls) and all(aa.rd.is_param_only(n, "func") for n, c in calls)
+    run.check("R16e", a, "apply() runs the converter it was given", ok, construct="apply rebinds func",
+              message="TypeTransformer.apply re-binds `func` before calling it")
+
+
 def check(run):
-    run.rules_run += ["R16a", "R16b", "R16c", "R16d"]
+    run.rules_run += ["R16a", "R16b", "R16c", "R16d", "R16e"]
     run.explain("C16: (R16a) every write to the registration list is followed on all paths by a reset of the resolve "
                 "memo; (R16b) after each insertion at the front the list is unconditionally stably sorted by the "
                 "priority component, descending; (R16c) every registration criterion reaches the generated detector "
@@ -268,3 +330,4 @@ def check(run):
     r16b(run, C)
     r16c(run, C)
     r16d(run, C)
+    r16e(run)
